@@ -32,6 +32,7 @@ use utf_8::*;
 use utf_16::*;
 use x_user_defined::*;
 
+#[cfg_attr(feature = "hsivonen_encoding_rs_verif", derive(Debug, Clone, PartialEq, Eq, Hash))]
 pub enum VariantDecoder {
     SingleByte(SingleByteDecoder),
     Utf8(Utf8Decoder),
@@ -219,6 +220,7 @@ fn decode_to_utf16_raw_impl(
     }
 }
 
+#[cfg_attr(feature = "hsivonen_encoding_rs_verif", derive(Debug, Clone, PartialEq, Eq, Hash))]
 pub enum VariantEncoder {
     SingleByte(SingleByteEncoder),
     Utf8(Utf8Encoder),
